@@ -19,6 +19,8 @@
 //   - IsResponsible(id) <=> self is in the reference set;
 //   - NodeIds(id) == reference set minus self (as a set without duplicates), never containing self.
 //
+// and the sync-only configuration listed in descending order gives the same sets as listed ascending.
+//
 // Together these imply that S(id) = NodeIds ∪ ({self} if IsResponsible) is identical from every viewpoint, for
 // every order of the node list, for ids with equal replication key, and with non-sync nodes added, removed or
 // retyped.
@@ -650,10 +652,11 @@ func TestCheck(t *testing.T) {
 		Prop:  "C18",
 		Level: "exploration",
 		Rule: "exhaustive enumeration of network configurations: N nodes x one of 4 type sets per node ({tree},{file,tree},{file},{coordinator,consensus}) " +
-			"x every order of the node list x every asking identity (each node + one client) x a fixed list of space-id forms; every case builds a fresh real " +
-			"nodeconf service (real go-chash ring, 3000 partitions, replication factor 3) through its exported API; additionally, for the first and the last " +
-			"order, the configuration reaches the participant from the store and as a runtime update. evaluations = (configuration, order, participant, path, space id) " +
-			"tuples; distinct_nontrivial = distinct (sync-node set, replication key, responsible set) triples",
+			"x every order of the node list (thorough: N<=5, then N=6 with identity/rotations/reverse only; quick: N<=3, then N=4 with identity/rotations/reverse only) " +
+			"x every asking identity (each node + one client) x 53 space-id forms; every case builds a fresh real nodeconf service (real go-chash ring, 3000 partitions, " +
+			"replication factor 3) through its exported API; for the first and the last order the configuration additionally reaches the participant from the store " +
+			"and as a runtime update from the configuration source. evaluations = (configuration, order, participant, path, space id) tuples; executions = real ring builds; " +
+			"distinct_nontrivial = distinct (sync-node set, replication key, responsible set) triples; ring_selected_sets = those with more sync nodes than the replication factor",
 		Assumptions: []string{
 			"peer ids are 6 fixed ed25519-derived peer ids + 1 client id; node addresses do not vary",
 			"the responsible set of a (sync-node set, replication key) pair is taken from the real ring built for the configuration holding only those sync nodes, asked by a client with the dot-free key (differential reference); size/distinctness/membership of that set are checked directly",
